@@ -296,6 +296,9 @@ func (o *OperationNormalizer) setupOperationWalkers() {
 	if o.options.extractVariables {
 		extractVariablesWalker := astvisitor.NewWalkerWithID(8, "ExtractVariables")
 		extractVariables(&extractVariablesWalker)
+		// on the same walk: the variable definitions are visited before the arguments, so the default of a
+		// variable that was not supplied is its value when a list or object literal containing it is extracted
+		extractVariablesDefaultValue(&extractVariablesWalker)
 		o.operationWalkers = append(o.operationWalkers, walkerStage{
 			name:   "extractVariables",
 			walker: &extractVariablesWalker,
@@ -364,10 +367,9 @@ func (o *OperationNormalizer) setupOperationWalkers() {
 
 	if o.options.extractVariables {
 		variablesProcessing := astvisitor.NewWalkerWithID(8, "VariablesProcessing")
-		// order matters: visitors of one variable definition run in registration order. The default
-		// value has to be in the variables before list coercion looks at them, otherwise a default
-		// that needs coercion below its top level (e.g. [[Int]] = [1]) is stored uncoerced.
-		extractVariablesDefaultValue(&variablesProcessing)
+		// the default values are in the variables already (extractVariables stage): list coercion has to
+		// see them, otherwise a default that needs coercion below its top level (e.g. [[Int]] = [1]) is
+		// stored uncoerced.
 		inputCoercionForList(&variablesProcessing)
 		injectInputFieldDefaults(&variablesProcessing)
 
